@@ -30,6 +30,25 @@ func TestVerifGoZeroGlobal(t *testing.T) {
 				w.Write([]byte("pong"))
 			}))
 		},
+		Instance: func(ext, fb bool) func(func() error) vOut {
+			var opts []Option
+			if ext {
+				opts = append(opts, WithResourceExtractor(func(*http.Request) string { return "custom-gozero" }))
+			}
+			if fb {
+				opts = append(opts, WithBlockFallback(func(*http.Request) (int, string) { return http.StatusBadRequest, "fallback" }))
+			}
+			mw := SentinelMiddleware(opts...) // ONE middleware value
+			return func(h func() error) vOut {
+				return serve(mw(func(w http.ResponseWriter, _ *http.Request) {
+					if err := h(); err != nil {
+						http.Error(w, "err", http.StatusBadGateway)
+						return
+					}
+					w.Write([]byte("pong"))
+				}))
+			}
+		},
 		Rejected: vHTTPRejected})
 }
 
@@ -43,6 +62,18 @@ func TestVerifGoZeroRouting(t *testing.T) {
 				}
 				w.Write([]byte("pong"))
 			}))
+		},
+		Instance: func(ext, fb bool) func(func() error) vOut {
+			mw := NewSentinelRouteMiddleware() // ONE middleware value
+			return func(h func() error) vOut {
+				return serve(mw.Handle(func(w http.ResponseWriter, _ *http.Request) {
+					if err := h(); err != nil {
+						http.Error(w, "err", http.StatusBadGateway)
+						return
+					}
+					w.Write([]byte("pong"))
+				}))
+			}
 		},
 		Rejected: vHTTPRejected})
 }
